@@ -2,6 +2,7 @@
 from __future__ import annotations
 
 import ast
+import re
 
 from ..core import AnalysisError, RuleResult
 from ..interp_base import MUTATORS
@@ -562,4 +563,62 @@ def rule_r5(ctx):
     return rr
 
 
-RULES = [("C10-R1", rule_r1), ("C10-R2", rule_r2), ("C10-R3", rule_r3), ("C10-R4", rule_r4), ("C10-R5", rule_r5)]
+def _unordered_reps(v, seen=None, out=None):
+    """Rep items of a template whose repetition follows the iteration order of a set."""
+    from ..vals import PDict, PList, PSet, PTuple, Rep, Splice, TNode, Transf
+
+    seen = set() if seen is None else seen
+    out = [] if out is None else out
+    if id(v) in seen:
+        return out
+    seen.add(id(v))
+    if isinstance(v, Rep):
+        over = v.over if isinstance(v.over, str) else ""
+        # sorted(set(..)) is ordered again; set(..) / reversed(set(..)) / set(..)[..] are not
+        if "set(" in over and not over.startswith("sorted("):
+            out.append(v)
+        for x in v.items:
+            _unordered_reps(x, seen, out)
+    elif isinstance(v, TNode):
+        for x in v.fields.values():
+            _unordered_reps(x, seen, out)
+    elif isinstance(v, (PList, PTuple, PSet)):
+        for x in v.items:
+            _unordered_reps(x, seen, out)
+    elif isinstance(v, PDict):
+        for k, x in v.pairs:
+            _unordered_reps(x, seen, out)
+    elif isinstance(v, Splice):
+        _unordered_reps(v.v, seen, out)
+    elif isinstance(v, Transf):
+        _unordered_reps(v.inner, seen, out)
+    return out
+
+
+def rule_r6(ctx):
+    """The order of the elements of a set of strings follows PYTHONHASHSEED: a fresh process may
+    iterate it differently.  Nothing whose order is visible in the output may be produced by a loop
+    over a set."""
+    from .common import all_templates
+
+    rr = RuleResult("C10-R6", "no emitted sequence follows the iteration order of a set (hash-seed dependent)")
+    rr.floor = 10
+    seen = set()
+    for origin, kind, pr, tmpl in all_templates(ctx):
+        rr.instances += 1
+        for r in _unordered_reps(tmpl):
+            key = (origin, r.over)
+            if key in seen:
+                continue
+            seen.add(key)
+            rr.fail(
+                f"C10-R6|{kind}|{re.sub('[^A-Za-z_.]+', '-', r.over)[:60]}",
+                f"{origin}: a sequence of the output is produced by iterating `{r.over}`; the iteration order of a set of strings depends on the hash seed of the process, so the same call in a fresh process yields a different text (not a renaming of temporaries)",
+                what=f"{origin}|{r.over}",
+            )
+    if not seen:
+        rr.ok("templates", sample={"rule": "C10-R6", "templates": rr.instances, "verdict": "no repetition over a set"})
+    return rr
+
+
+RULES = [("C10-R1", rule_r1), ("C10-R2", rule_r2), ("C10-R3", rule_r3), ("C10-R4", rule_r4), ("C10-R5", rule_r5), ("C10-R6", rule_r6)]
